@@ -101,6 +101,27 @@ structure Conversion where
   line  : Nat
   deriving DecidableEq, Repr, Inhabited
 
+/-- a lifetime position of the OUTPUT of a value conversion, relative to the lifetimes the INPUT type names:
+    `fromInput`: one of the input's named lifetimes; `fresh`: an elided `'_` in an impl header / a lifetime the
+    caller chooses freely; `static_`; `other`: a named lifetime that is not one of the input's -/
+inductive LtRel | fromInput | fresh | static_ | other (name : String)
+  deriving DecidableEq, Repr, Inhabited
+/-- `from_`: `impl From<In> for Out` (or an associated fn `Out::f(In) -> Out`); `accessor`: `In::name(self…) -> Out`;
+    `item`: `impl Iterator for In { type Item = Out }`; `refView`: `AsRef`/`Borrow`/`Deref` (`&In -> &Out`);
+    `ctor`: `Out::name(In, allocator)` — the lifetimes listed are those of the `In` ARGUMENT relative to the lifetime
+    `'a` of the bound `A: …Scope<'a>` that the output's `into_*` methods hand out -/
+inductive ConvForm | from_ | accessor | item | refView | ctor
+  deriving DecidableEq, Repr, Inhabited
+/-- a conversion between two lifetime-carrying public types -/
+structure ValueConv where
+  form   : ConvForm
+  input  : String
+  name   : String          -- `from_`: the output type or `Out::f`; `accessor`/`refView`: the method; `item`: "next"; `ctor`: `Out::f`
+  output : String
+  lts    : List LtRel
+  src    : String
+  deriving DecidableEq, Repr, Inhabited
+
 /-- field types of the handle structs, as far as auto-trait derivation needs them -/
 inductive Ty
   | alloc                       -- the base allocator parameter `A`
@@ -127,6 +148,7 @@ structure Table where
   scopeImpls      : List ScopeImpl
   settingsAsserts : List SettingsAssert
   conversions     : List Conversion
+  valueConvs      : List ValueConv
   structs         : List StructDef
   autoImpls       : List AutoImpl
   dropImpls       : List (String × Bool)
@@ -134,5 +156,8 @@ structure Table where
 
 def Table.lookup (t : Table) (owner name : String) : Option Sig :=
   t.sigs.find? (fun s => s.owner == owner && s.name == name)
+
+def Table.lookupConv (t : Table) (input name : String) : Option ValueConv :=
+  t.valueConvs.find? (fun c => c.input == input && c.name == name)
 
 end Life
